@@ -12,7 +12,7 @@
 
    Executable definitions only; no proofs. *)
 From Coq Require Export String Ascii.
-From TV Require Import Base.I32.
+From TV Require Import Base.I32 Gen.FmtTables.
 Open Scope Z_scope.
 
 Notation "a ^^ b" := (String.append a b) (right associativity, at level 60).
@@ -182,6 +182,43 @@ Fixpoint sep_by {A} (sep : list A) (ls : list (list A)) : list A :=
   end.
 
 (* ------------------------------------------------------------------------------------------ *)
+(* what the formatter writes *)
+
+Inductive oitem :=
+| OT (t : token)       (* token text *)
+| OTrail               (* the "," that the block layout writes after the last item of a list *)
+| OS (n : nat)         (* n spaces *)
+| OC (s : string)      (* comment text *)
+| ONl.                 (* "\n" *)
+
+
+Fixpoint spaces (n : nat) : string := match n with O => EmptyString | S k => String " " (spaces k) end.
+
+Definition otext (o : oitem) : string :=
+  match o with OT t => text t | OTrail => "," | OS n => spaces n | OC s => s | ONl => String "010" EmptyString end.
+
+Fixpoint concat_text (l : list oitem) : string :=
+  match l with [] => EmptyString | o :: r => otext o ^^ concat_text r end.
+
+
+(* the inline layout of an expression document: what the formatter writes when the line is wide enough *)
+Fixpoint flat (d : doc) : list oitem :=
+  match d with
+  | DT t => [OT t]
+  | DS n => [OS n]
+  | DC s => [OC s]
+  | DSeq l => flat_map flat l
+  | DList op cl items => OT op :: sep_by [OT (TFix ","); OS 1] (map flat items) ++ [OT cl]
+  | DLabel b => flat b
+  | _ => []
+  end.
+
+
+Definition nextc (s : string) : option ascii := match s with String c _ => Some c | EmptyString => None end.
+(* first character of the inline text of a document list: `stringify(x).chars().next()` *)
+Definition first_char_docs (l : list doc) : option ascii := nextc (concat_text (flat (DSeq l))).
+
+(* ------------------------------------------------------------------------------------------ *)
 (* literal printing (Expr::LitInt / LitFloat / LitString arms and the Format impls for i32, f32, LitString) *)
 
 (* "-" is its own token: a negative literal prints as the two tokens `-` `digits` *)
@@ -268,6 +305,15 @@ Definition last_none {A} (l : list (option A)) : bool := head_none (rev l).
 Definition fn_tok (op : string) : doc :=
   if String.eqb op "$" || String.eqb op "%" then fx op else wd op.
 
+(* operand_fuses_with_prefix_op (present in src/fmt.rs iff gen_unop_guard): the operand's text starts with `-`,
+   or the operator is `!` and it starts with a character of a difficulty string *)
+Definition fuses (op : string) (c : option ascii) : bool :=
+  match c with
+  | Some c => Ascii.eqb c "-"%char
+              || (String.eqb op "!" && mem_str (str1 c) ["*"; "E"; "N"; "H"; "L"; "W"; "X"; "Y"; "Z"; "O"; "4"; "5"; "6"; "7"]%string)
+  | None => false
+  end.
+
 Section Expr.
 Variable fd : Z -> string.
 
@@ -277,7 +323,10 @@ Fixpoint pp (sup : bool) (e : fexpr) : list doc :=
       paren sup (pp false c ++ [sp1; fx "?"; sp1] ++ pp false l ++ [sp1; fx ":"; sp1] ++ pp false r)
   | FBin a op b => paren sup (pp false a ++ [sp1; fx op; sp1] ++ pp false b)
   | FUn op x =>
-      if mem_str op prefix_unops then paren sup (fx op :: pp false x)
+      if mem_str op prefix_unops then
+        paren sup (if gen_unop_guard && fuses op (first_char_docs (pp false x))
+                   then [fx op; fx "("] ++ pp true x ++ [fx ")"]      (* operand_fuses_with_prefix_op *)
+                   else fx op :: pp false x)
       else [fn_tok op; fx "("] ++ pp true x ++ [fx ")"]
   | FXcr pre inc v =>
       let o := fx (if inc then "++" else "--") in
@@ -390,7 +439,10 @@ Fixpoint stmt_doc (s : stmt) : doc :=
     | SInterrupt e => [DIntrPre; DLabel (DSeq ([wd "interrupt"; fx "["] ++ ppe false e ++ [fx "]"; fx ":"])); DSuppBlank; DIntrPost]
     | SAbsTime t => [DLabel (DSeq (signed_toks "" 10 t ++ [fx ":"])); DSuppBlank]
     | SRelTime d c =>
-        [DLabel (DSeq ([fx "+"] ++ ppe false d ++ [fx ":"]
+        [DLabel (DSeq ([fx "+"]
+                       ++ (if gen_unop_guard && match first_char_docs (ppe false d) with Some c => Ascii.eqb c "+"%char | None => false end
+                           then [fx "("] ++ ppe true d ++ [fx ")"] else ppe false d)
+                       ++ [fx ":"]
                        ++ match c with Some t => [sp1; DC ("// " ^^ dec_i32 t)] | None => [] end));
          DSuppBlank]
     | SNoInstr => [DSuppBlank]
@@ -432,13 +484,6 @@ End Docs.
 
 (* ------------------------------------------------------------------------------------------ *)
 (* the Formatter state machine *)
-
-Inductive oitem :=
-| OT (t : token)       (* token text *)
-| OTrail               (* the "," that the block layout writes after the last item of a list *)
-| OS (n : nat)         (* n spaces *)
-| OC (s : string)      (* comment text *)
-| ONl.                 (* "\n" *)
 
 Definition olen (o : oitem) : nat :=
   match o with OT t => String.length (text t) | OTrail => 1 | OS n => n | OC s => String.length s | ONl => 1 end.
@@ -575,14 +620,6 @@ Definition render_items (w : nat) (d : doc) : outcome (list oitem) :=
       end
   end.
 
-Fixpoint spaces (n : nat) : string := match n with O => EmptyString | S k => String " " (spaces k) end.
-
-Definition otext (o : oitem) : string :=
-  match o with OT t => text t | OTrail => "," | OS n => spaces n | OC s => s | ONl => String "010" EmptyString end.
-
-Fixpoint concat_text (l : list oitem) : string :=
-  match l with [] => EmptyString | o :: r => otext o ^^ concat_text r end.
-
 Definition render (w : nat) (d : doc) : outcome string :=
   match render_items w d with Ok l => Ok (concat_text l) | Err t => Err t | Panic t => Panic t | OutOfFuel => OutOfFuel end.
 
@@ -599,18 +636,6 @@ Fixpoint dtoks (d : doc) : list token :=
   | DLabel b => dtoks b
   | DSeq l => flat_map dtoks l
   | DList op cl items => op :: sep_by [TFix ","] (map dtoks items) ++ [cl]
-  | _ => []
-  end.
-
-(* the inline layout of an expression document: what the formatter writes when the line is wide enough *)
-Fixpoint flat (d : doc) : list oitem :=
-  match d with
-  | DT t => [OT t]
-  | DS n => [OS n]
-  | DC s => [OC s]
-  | DSeq l => flat_map flat l
-  | DList op cl items => OT op :: sep_by [OT (TFix ","); OS 1] (map flat items) ++ [OT cl]
-  | DLabel b => flat b
   | _ => []
   end.
 
